@@ -103,5 +103,18 @@ def run(rep, tier, seed):
 
 
 def replay(obj):
-    print(obj["detail"])
-    return 0
+    r = obj["replay"]
+    if "neuron" in r:
+        nrn = streams.deser(r["neuron"])
+        rec = engine.run_cases("misc", "run_c19_batch", [{"clamp": [], "neurons": [nrn]}], jobs=1)[0]
+        io = rec["meta"]["neuron_lines"][0].split()
+        pre, db, dw, dx = expected(nrn)
+        bad = parse_q(io[1]) != min(ONE, max(ZERO, pre)) or (nrn["act"] == "lukt" and (
+            parse_q(io[2]) != db or [parse_q(t) for t in io[3].split(",")] != dw or [parse_q(t) for t in io[4].split(",")] != dx))
+    else:
+        x = parse_q(r["x"])
+        rec = engine.run_cases("misc", "run_c19_batch", [{"clamp": [x], "neurons": []}], jobs=1)[0]
+        io = rec["impl"][1].split()
+        bad = parse_q(io[1]) != min(ONE, max(ZERO, x)) or parse_q(io[2]) != 1
+    print("REPRODUCED" if bad else "not reproduced", io)
+    return 1 if bad else 0
